@@ -134,7 +134,10 @@ def main(argv=None):
     for k, oid in knownhits:
         if k["id"] not in seen:
             seen.add(k["id"])
-            print("KNOWN-FINDING: property=%s %s" % (a.prop, k["text"]))
+            if a.prop in (k.get("properties") or [k.get("property")]):
+                print("KNOWN-FINDING: property=%s %s" % (a.prop, k["text"]))
+            else:
+                print("note: obligation %s hits known finding %s, which is recorded for %s" % (oid, k["id"], k.get("properties") or k.get("property")))
     for r, rp in viol:
         print("VIOLATION property=%s replay=%s" % (a.prop, rp))
     if not a.no_evidence and not user_only:
